@@ -6,7 +6,8 @@ import vlib, gen, skacli
 def run(run, tier, seed):
     run.rule = ("complete: all 4x256 cells of IUPAC, all 256 of RC_IUPAC, is_ambiguous and base_to_prob on the 15 IUPAC "
                 "letters, U and '-' in both cases, dumped from the real tables and checked cell by cell against the set "
-                "algebra of spec/Bases.tla by TLC; design model MC_Iupac explores every order/multiplicity of observations. "
+                "algebra of spec/Bases.tla by TLC; design model MC_Iupac explores every order/multiplicity of observations; the union IN USE: "
+                "every (stored code, next base) pair as a sequence of sightings of one split k-mer through `ska build` + `ska nk`. "
                 "non-trivial = every cell whose argument is an IUPAC letter, U or '-' (distinct by (table, cell))")
     run.assumptions = ["TLC evaluates the set-algebra definitions of Bases.tla correctly", "skav dumps the tables verbatim"]
     run.add_design(vlib.design_check("MC_Iupac", "MC_Iupac", "c15-iupac", workers=2, timeout=300))
@@ -33,6 +34,56 @@ def run(run, tier, seed):
         e = events[i]
         run.fail({"kind": "table", "event": e}, "table %s (base=%s) disagrees with the union algebra" % (e["ev"], e.get("base")))
     weights_in_use(run, tier, seed)
+    union_in_use(run, tier, seed)
+
+
+def union_in_use(run, tier, seed):
+    """The union as `ska build` uses it: for every stored code (each of the 15 non-empty sets of bases, met in a shuffled
+    order) and every next base, a sample whose records show one split k-mer with exactly that sequence of middle bases;
+    the stored code must be the code of the union - complete over (code, base), both strand modes."""
+    import os, itertools, shutil
+    from vlib import b
+    rng = random.Random(seed + 1515)
+    tmp = vlib.shm_dir("c15u")
+    events = []
+    try:
+        ci = 0
+        for n_ in (1, 2, 3, 4):
+            for S in itertools.combinations("ACGT", n_):
+                for nxt in "ACGT":
+                    ci += 1
+                    k = [9, 17, 31, 33][ci % 4]
+                    rc = ci % 2 == 0
+                    h = (k - 1) // 2
+                    up, lo = gen.rand_seq(rng, h), gen.rand_seq(rng, h)
+                    while up + lo == vlib.revcomp(up + lo):
+                        up = gen.rand_seq(rng, h)
+                    order = list(S)
+                    rng.shuffle(order)
+                    recs = [up + m + lo for m in order + [nxt]]
+                    fa = os.path.join(tmp, "u%d.fa" % ci)
+                    vlib.write_fasta(fa, recs)
+                    out = os.path.join(tmp, "u%d" % ci)
+                    rcode, so, se = vlib.ska_cli(["build", "-o", out, "-k", str(k), fa] + ([] if rc else ["--single-strand"]))
+                    ctx = {"samples": [[b(r) for r in recs]], "names": ["u%d" % ci], "k": k, "rc": rc}
+                    run.evaluations += 1
+                    run.nontriv(["union-in-use", "".join(S), nxt])
+                    if rcode != 0:
+                        events.append({"ev": "nk", "ctx": ctx, "panic": se.decode(errors="replace")[-200:] or "exit"})
+                        continue
+                    rcode, so, se = vlib.ska_cli(["nk", "--full-info", out + ".skf"])
+                    events.append({"ev": "nk", "ctx": ctx, "panic": "" if rcode == 0 else "nk failed", "table": vlib.parse_nk(so.decode())})
+    finally:
+        shutil.rmtree(tmp, ignore_errors=True)
+    ok, bad, states = vlib.validate_trace("Trace_Kmer", events, "c15u", shards=4, timeout=600)
+    run.states += states
+    run.transitions += len(events)
+    run.traces_validated += ok
+    run.events += ok
+    for i in bad:
+        e = events[i]
+        seq = ["".join(chr(x) for x in r)[(e["ctx"]["k"] - 1) // 2] for r in e["ctx"]["samples"][0]]
+        run.fail({"kind": "union-in-use", "event": e}, "middle bases %s met in this order: the stored code is not the code of their union" % ",".join(seq))
 
 
 def weights_in_use(run, tier, seed):
